@@ -8,6 +8,7 @@ every search is a first-time search.  Expected answers come from exact bookkeepi
 (and from the exact affine definitions for the temperature scales)."""
 from __future__ import annotations
 
+import random
 from fractions import Fraction
 
 from . import sched
@@ -52,9 +53,10 @@ def section(ctx, env, trials):
         builds units of its own.  With `only` (a set of function names) the first thread is preempted at every line of
         those functions and the other thread runs as a whole in between - complete for one preemption"""
         holder = {}
+        variant = rng.getrandbits(32)    # the same variant of the scenario in every execution of one exploration
 
         def make(_i):
-            thunks, holder["allowed"], holder["after"] = setup()
+            thunks, holder["allowed"], holder["after"] = setup(random.Random(variant))
             return [outcome(t) for t in thunks]
 
         def check(run, _i):
@@ -90,39 +92,39 @@ def section(ctx, env, trials):
         b.equals(4 * c)
         return a, b, c
 
-    def two_first_time_queries():
-        a, b, c = chain(rng.choice([m.Length, m.Time, m.Mass]))
+    def two_first_time_queries(r):
+        a, b, c = chain(r.choice([m.Length, m.Time, m.Mass]))
         return ([lambda: (1 * a).in_unit(c), lambda: (16 * c).in_unit(a)], [[("ok", 8)], [("ok", 2)]],
                 [("a -> c", lambda: (1 * a).in_unit(c), [("ok", 8)]), ("c -> b", lambda: (8 * c).in_unit(b), [("ok", 2)]), ("b**2 -> c**2", lambda: (1 * b**2).in_unit(c**2), [("ok", 16)]),
                  ("a == 8 c", lambda: (1 * a) == (8 * c), [("ok", True)])])
 
-    def same_first_time_query_twice():
-        a, b, c = chain(rng.choice([m.Length, m.Time]))
+    def same_first_time_query_twice(r):
+        a, b, c = chain(r.choice([m.Length, m.Time]))
         return ([lambda: (3 * c).in_unit(a), lambda: (3 * c).in_unit(a)], [[("ok", Fraction(3, 8))], [("ok", Fraction(3, 8))]],
                 [("c -> a", lambda: (8 * c).in_unit(a), [("ok", 1)]), ("a -> c", lambda: (1 * a).in_unit(c), [("ok", 8)]), ("c < a", lambda: (1 * c) < (1 * a), [("ok", True)])])
 
-    def correction_racing_a_question():
-        dim = rng.choice([m.Length, m.Mass])
+    def correction_racing_a_question(r):
+        dim = r.choice([m.Length, m.Mass])
         a, b = m.Unit.define(dim, fresh("u"), fresh("s")), m.Unit.define(dim, fresh("u"), fresh("s"))
         a.equals(4 * b)
         (1 * a).in_unit(b)
         (1 * b).in_unit(a)            # both directions are planned and memoised with the old number
         sec = U["second"]
-        return ([lambda: a.equals(5 * b) or 0, rng.choice([lambda: (10 * a).in_unit(b), lambda: (10 * a) == (40 * b), lambda: (20 * b).in_unit(a)])],
+        return ([lambda: a.equals(5 * b) or 0, r.choice([lambda: (10 * a).in_unit(b), lambda: (10 * a) == (40 * b), lambda: (20 * b).in_unit(a)])],
                 [[("ok", 0)], [("ok", 40), ("ok", 50), ("ok", True), ("ok", False), ("ok", 5), ("ok", 4)]],
                 [("a -> b", lambda: (10 * a).in_unit(b), [("ok", 50)]), ("b -> a", lambda: (50 * b).in_unit(a), [("ok", 10)]), ("a == 5 b", lambda: ((1 * a) == (5 * b), (5 * b) == (1 * a)), [("ok", (True, True))]),
                  ("a/s -> b/s", lambda: (2 * (a / sec)).in_unit(b / sec), [("ok", 10)]), ("there and back", lambda: (10 * a).in_unit(b).in_unit(a), [("ok", 10)])])
 
-    def temperatures_at_once():
+    def temperatures_at_once(r):
         K, C, F, R = U["kelvin"], U["celsius"], U["fahrenheit"], U["Rankine"]
         qs = [(lambda: (300 * K).in_unit(C), Fraction("26.85")), (lambda: (100 * C).in_unit(F), Fraction(212)), (lambda: (491.67 * R).in_unit(C), Fraction(0)),
               (lambda: (-40 * F).in_unit(C), Fraction(-40)), (lambda: (0 * C).in_unit(K), Fraction("273.15")), (lambda: (32 * F).in_unit(K), Fraction("273.15"))]
-        (t1, w1), (t2, w2) = rng.sample(qs, 2)
+        (t1, w1), (t2, w2) = r.sample(qs, 2)
         conv._forget_plans() if hasattr(conv, "_forget_plans") else None
         return ([t1, t2], [[("ok", w1)], [("ok", w2)]], [("first again", t1, [("ok", w1)]), ("second again", t2, [("ok", w2)]), ("300 K > 70 degF", lambda: (300 * K) > (70 * F), [("ok", True)])])
 
-    def impossible_question_while_another_thread_declares():
-        dim = rng.choice([m.Length, m.Mass, m.Time])
+    def impossible_question_while_another_thread_declares(r):
+        dim = r.choice([m.Length, m.Mass, m.Time])
         a, x = m.Unit.define(dim, fresh("u"), fresh("s")), m.Unit.define(dim, fresh("u"), fresh("s"))
         try:
             (1 * a).in_unit(x)
@@ -133,12 +135,12 @@ def section(ctx, env, trials):
             p_, q_ = m.Unit.define(m.Energy, fresh("u"), fresh("s")), m.Unit.define(m.Energy, fresh("u"), fresh("s"))
             p_.equals(3 * q_)
             return 0
-        ask = rng.choice([(lambda: (1 * a).in_unit(x), [("raise", "ConversionNotFound")]), (lambda: (1 * a) == (1 * x), [("ok", False)]), (lambda: (1 * a) < (1 * x), [("raise", "TypeError")]),
+        ask = r.choice([(lambda: (1 * a).in_unit(x), [("raise", "ConversionNotFound")]), (lambda: (1 * a) == (1 * x), [("ok", False)]), (lambda: (1 * a) < (1 * x), [("raise", "TypeError")]),
                           (lambda: (1 * a) + (1 * x), [("raise", "ConversionNotFound")])])
         return ([ask[0], declare_elsewhere], [ask[1], [("ok", 0)]], [("again", ask[0], ask[1])])
 
-    def levels_at_once():
-        ref = rng.choice([66.0, 12.5, 3.0])
+    def levels_at_once(r):
+        ref = r.choice([66.0, 12.5, 3.0])
         uid[0] += 1
         volt = U["volt"]
         lu = m.Decibel[(ref + uid[0]) * volt]
